@@ -407,7 +407,7 @@ func c12Tails(c *Ctx, p *Prog) {
 		}
 		init := map[ssa.Value]*Sym{altParam: symConst(k.Val(), altParam.Type())}
 		outs, why := e6Enumerate(func() *e6Interp {
-			return &e6Interp{Init: init, PureCall: func(f *types.Func) bool { return true }}
+			return &e6Interp{Init: init, PureCall: func(f *types.Func) bool { return true }, Inline: c12InlineHelper}
 		}, fn.Blocks[0], nil, nil, 64)
 		if why != "" || len(outs) != 1 {
 			c.Undecided(R, "tails:"+name, site, fmt.Sprintf("cannot evaluate (%s, %d outcomes)", why, len(outs)))
@@ -957,4 +957,10 @@ func c12LenMinusOne(c *Ctx, p *Prog) {
 		})
 	}
 	c.Floor(R, "divisions by len-1 in internal/stats", n, 1)
+}
+
+// c12InlineHelper: small loop-free package-level helpers of internal/stats (a tail switch moved out of newTTestResult)
+// are evaluated in place; methods (distributions' CDF etc.) stay symbolic.
+func c12InlineHelper(f *ssa.Function) bool {
+	return f.Pkg != nil && f.Pkg.Pkg.Path() == modPath+"/internal/stats" && f.Signature.Recv() == nil && f.Parent() == nil && len(naturalLoops(f)) == 0 && len(f.Blocks) <= 12 && !strings.HasPrefix(f.Name(), "math")
 }
